@@ -734,3 +734,5 @@ PROPS["C20"]["rule"] += " Whole-process part: the shutdown announcement must nam
 
 PROPS["C12"]["rule"] += " Log lines are matched by what they name (the field - a label value of the counter - and the prefix or route), not by their wording."
 PROPS["C04"]["rule"] += " The misconfiguration log line is recognised by its subject (a line that speaks of forwarding and reports no read failure), not by its wording."
+
+PROPS["C10"]["rule"] += " The error that ends the retries is recognised by what it carries (a recoverable cause, flattened into its text or wrapped), not by its wording."
